@@ -507,4 +507,11 @@ def rule_e(ctx: Ctx) -> None:
                 'path condition in iter_errors, iter_decode and raw_decoder.')
 
 
-RULES = [rule_a, rule_b, rule_c, rule_d, rule_e]
+def rule_f(ctx: Ctx) -> None:
+    from .common import context_copy_shares
+    context_copy_shares(ctx, 'C04.f', ('errors',))
+    ctx.explain('C04.f: the error collector is shared by reference between a validation context and its copies, so lax mode '
+                'collects every error that strict mode would raise.')
+
+
+RULES = [rule_a, rule_b, rule_c, rule_d, rule_e, rule_f]
